@@ -26,6 +26,7 @@ def opsOf (tbl : List (String × Nat × Bool × Bool)) : List Op :=
 def LP : Bytes := [40]
 def RP : Bytes := [41]
 def MINUS : Bytes := [45]
+def PLUS : Bytes := [43]
 
 inductive R (α : Type) where
   | ok (a : α)
@@ -97,15 +98,15 @@ def endsNumeric : Bytes → Bool
   | [] => true
   | ch :: t => if isDigit ch || ch == 46 then endsNumeric t else !isNameByte ch
 
-/-- "Hack to allow negative exponents": the two bytes before the position are a digit and `e`, and the digit is the
-    end of a numeric literal (in a name such as `$a1e` the `e` is no exponent marker) -/
+/-- "Hack to allow signed exponents" (`1.2e-2`, `1e+2`, `2.5E-1`): the two bytes before the position are a digit and
+    `e` or `E`, and the digit is the end of a numeric literal (in a name such as `$a1e` the `e` is no exponent marker) -/
 def expHack : Bytes → Bool
-  | 101 :: d :: t => isDigit d && endsNumeric (d :: t)
+  | c :: d :: t => (c == 101 || c == 69) && isDigit d && endsNumeric (d :: t)
   | _ => false
 
 /-- `Operator.match(expression, start, len(expression))` at the position `(pre, rest)` -/
 def Op.matchAt (o : Op) (pre rest : Bytes) : Bool :=
-  o.sym.isPrefixOf rest && !(o.sym == MINUS && expHack pre)
+  o.sym.isPrefixOf rest && !((o.sym == MINUS || o.sym == PLUS) && expHack pre)
 
 /-- the first operator of the table (in table order) that matches here -/
 def firstMatch (ops : List Op) (pre rest : Bytes) : Option Op := ops.find? (fun o => o.matchAt pre rest)
